@@ -23,6 +23,21 @@ from statham.schema.validation import (
 RESERVED_PROPERTIES = dir(object) + list(keyword.kwlist) + ["_dict"]
 
 
+def _escape_docstring(text: str) -> str:
+    """Escape a description so it reads back unchanged from a docstring.
+
+    Backslashes and double quotes would otherwise form escape sequences or
+    end the literal; carriage returns are normalised by the tokenizer and
+    null bytes are not allowed in source text.
+    """
+    return (
+        text.replace("\\", "\\\\")
+        .replace('"', '\\"')
+        .replace("\r", "\\r")
+        .replace("\0", "\\x00")
+    )
+
+
 class ObjectClassDict(dict):
     """Overriden class dictionary for the metaclass of Object.
 
@@ -179,7 +194,9 @@ class ObjectMeta(type, Element):
         if not cls.description is None and not isinstance(
             cls.description, NotPassed
         ):
-            class_def += f'    """{cls.description}"""\n'
+            class_def += (
+                f'    """{_escape_docstring(cls.description)}"""\n'
+            )
         if not cls.properties:
             class_def = (
                 class_def
